@@ -176,6 +176,24 @@ def _check_stan(args):
     return None
 
 
+def check_stan_independent():
+    """two calls with the same arguments return independent schedules: editing the first (fields, length) does not change the second"""
+    from liesel.goose.warmup import stan_epochs
+    for args, kw in (((200, 100), {"term_duration": 10}), ((1000, 1000), {})):
+        first = stan_epochs(*args, **kw)
+        snap = [(int(e.type), e.duration, e.thinning) for e in first]
+        first[-1].thinning = 7
+        first[1].duration = 3
+        first.pop(0)
+        first.append(first[-1])
+        second = stan_epochs(*args, **kw)
+        got = [(int(e.type), e.duration, e.thinning) for e in second]
+        if got != snap or second is first:
+            return {"sig": "native::stan::results_share_state", "what": f"stan_epochs{args} called again after the first result was edited: {got[:3]}... ({len(got)} epochs), the documented schedule is {snap[:3]}... ({len(snap)} epochs)",
+                    "input": {"args": list(args), "kwargs": kw}}
+    return None
+
+
 def check_builder_chunk(seq):
     import jax
     import liesel.goose as gs
@@ -280,6 +298,8 @@ def bounded(tier, seed):
         evals += 1
     distinct += len(set(grid))
     samples.append({"stan_epochs": grid[7]})
+    add(check_stan_independent())
+    evals += 1
     # builder chunk on a few real builds
     scheds = [[(0, 1, 1), (1, 6, 1), (2, 9, 3), (4, 12, 4)], [(0, 1, 1), (3, 7, 1)], [(0, 1, 1), (4, 10, 5), (4, 15, 1)],
               [(0, 1, 1), (3, 6, 1), (4, 1, 1)], [(0, 1, 1), (3, 1, 1), (1, 8, 2), (4, 4, 1)], [(0, 1, 1), (4, 1, 1)],
@@ -301,7 +321,7 @@ def bounded(tier, seed):
         "distinct_nontrivial": distinct,
         "rule": (f"BOUNDED: every valid schedule prefix of <= {L} epochs over type 0..4 x duration 0..3 x thinning 0..3 "
                  f"({n_prefix} prefixes; quick tier samples 1/4 of the deepest layer) x every candidate append; next() on every prefix; "
-                 f"{n_att} seeded histories of 2-5 append attempts (valid and invalid mixed, optionally a next() after each) observed through next()/has_more() only; stan_epochs on {len(grid)} argument tuples (grid + seeded random, seed={seed}); builder chunk on {len(scheds)} real builds. "
+                 f"{n_att} seeded histories of 2-5 append attempts (valid and invalid mixed, optionally a next() after each) observed through next()/has_more() only; stan_epochs on {len(grid)} argument tuples (grid + seeded random, seed={seed}) and twice with equal arguments around an in-place edit of the first result; builder chunk on {len(scheds)} real builds. "
                  "A case is counted once per distinct (prefix, config) / argument tuple / schedule."),
         "samples": samples,
         "exhaustive": tier != "quick",
